@@ -20,7 +20,8 @@ STRENGTHENED = {
     'C16-r2m2', 'C17-r2m1', 'C17-r2m2', 'C12-r2m1', 'C02-r2m2', 'C05-r2m1',
     'C05-r2m2', 'C05-r2m3', 'C04-r2m1', 'C04-r2m3', 'C10-r3m2', 'C10-r3m3',
     'C03-r3m2', 'C06-r3m1', 'C01-r3m1', 'C18-r3m2', 'C18-r3m3', 'C19-r3m1',
-    'C19-r3m3'}
+    'C19-r3m3', 'C11-r3m1', 'C11-r3m2', 'C11-r3m3', 'C16-r3m3', 'C12-r3m1',
+    'C12-r3m2'}
 res = json.load(open(OUT)) if os.path.exists(OUT) else {}
 for f in sorted(glob.glob('/tmp/seedrun-*.out'), key=os.path.getmtime):
     for line in open(f):
